@@ -2,14 +2,16 @@ SPECIFICATION Spec
 CONSTANTS
   Peers = {1, 2, 3}
   MaxR = 4
-  PT <- PTRepairNoWrong
-  Modes = {"repair"}
-  ChainedSet = {TRUE, FALSE}
-  Starts = {3}
-  Targets = {2, 3, 4}
-  Corruptions <- CorrFullNoAbort
+  PT <- PTFull
+  Modes = {"follow"}
+  ChainedSet = {FALSE}
+  Starts = {0, 1, 2, 3}
+  Targets = {0, 1, 2, 3, 4}
+  Corruptions <- NoCorruption
   NT = 1
-  FollowRetries = FALSE
+  FollowRetries = TRUE
+  FollowAppend = TRUE
+  ResyncChecksRound = TRUE
   MaxAgg = 0
   QCap = 1
   Linger = FALSE
